@@ -135,6 +135,9 @@ func (h accountsResourceHandler) Expand(opts common.ResourceQuery[any], property
 		if !h.store.ledger.HasFeature(features.FeatureMovesHistoryPostCommitEffectiveVolumes, "SYNC") {
 			return nil, nil, common.NewErrInvalidQuery("feature %s must be 'SYNC' to use effectiveVolumes", features.FeatureMovesHistoryPostCommitEffectiveVolumes)
 		}
+	default:
+		// unknown expansions are ignored, as the transactions handler does (the name ends up in the SQL text below)
+		return nil, nil, nil
 	}
 
 	selectRowsQuery := h.store.newScopedSelect().
